@@ -14,14 +14,18 @@ CFG = {'lean_modules': ['ObiVerif.Props.C19'],
          'the three word types with sequences of k-1, k, k+1 bases; gf = Push + FilterMinWeight(min, incl. negative and 0) + MaxWeight + Len + everything '
          'g shows on the filtered graph; gc = LongestConsensus(id, min_cov > 0) for 21 fixed values (dyadic, 0.1, 1/3, next-after 0.5, 1e-300, smallest '
          'subnormal, > 1) and random ones; km = NewKmerMap(refs, k, sparse, maxocc in -1..4) + Len + Query + FilterMinCount on 64/128/256-bit words, query '
-         'fresh or itself a reference; non-trivial = distinct well-formed case inside the domain of the word type (2k <= W)',
+         'fresh or itself a reference; deepening round 3: km with limits 0..13 that drop some k-mers and keep others, every km case run twice with opposite allocation orders of the '
+         'sequences (address ranks reversed); gc corpus with weights 2^52-1, 2^52, 2^52+1, 2^53+1; every acyclic g/gf case asks HaviestPath again twice and twice more on the graph rebuilt from the reads in '
+         'the opposite order; non-trivial = distinct well-formed case inside the domain of the word type (2k <= W)',
  'technique': 'Lean 4 theorems on executable models of the k-mer code (table facts decided over the tables regenerated from the source; word arithmetic, '
               'sliding-window and strand-symmetry laws by induction) + differential correspondence of the models with the real pkg/obikmer functions on the '
               'three obifp word types + independent oracles on the real code (naive 4-mer and canonical k-mer enumeration on strings and big integers, strand '
               'invariance by actually reverse-complementing, per-window IUPAC expansion for the weights, Kahn elimination for cycles, brute force over all '
               'walks and dynamic programming for the heaviest walk; for min_cov: 53-bit big.Float recomputation of the threshold for every value Mode can return, '
               'trimmed consensus must be one of the references and a substring of the full consensus; for the index: set of matched references from naive '
-              'canonical k-mers, strand invariance of Query by actually reverse-complementing the query)',
+              'canonical k-mers, strand invariance of Query by actually reverse-complementing the query; round 3: Len and the reported counts (shared+1) recomputed naively with the occurrence limit and a query that '
+              'is a reference; answers of Query under two allocation orders must be equal; single read returned iff no repeated (k-1)-mer, else cycle + error; '
+              'HaviestPath repeated / on the reversed read order must return the same path; run-to-run differences of LongestConsensus (Mode ties) and of the unused MaxPath are counted)',
  'level_text': 'Proved for all inputs on the models of the repaired code: encode4_exact (Encode4mer = the codes of the 4-mers in order, none below 4 bases, no '
                'panic); count4_mod (table cell = occurrences modulo 2^16) and count4_exact_partial (exact below 65539 bases) with count4_overflow as '
                'counterexample to the unrestricted statement; canon_exact (for every word width W, every k with 1 <= k and 2k <= W, dense or sparse, every '
@@ -47,18 +51,33 @@ CFG = {'lean_modules': ['ObiVerif.Props.C19'],
                'mode_tie_counterexample (the outcome depends on Go map iteration order inside obistats.Mode when two weights are equally frequent; min_cov = 2 '
                'panics). k-mer index proper: index_exact (without occurrence limit the list under k-mer x is the references in order, each repeated count x times), '
                'query_exact (query not in the index: reference j is reported iff it shares a canonical k-mer occurrence, with the value shared+1 - the code counts '
-               'one too many -, independent of the address order), query_strand_invariant.',
+               'one too many -, independent of the address order), query_strand_invariant. Deepening round 3 (all proved, all inputs): rounding_monotone (the modelled '
+               'round-to-nearest-even is monotone on every grid 2^e x N and never crosses a representable value K x 2^f, K <= 2^53, from either side), cov_threshold_le_mode '
+               '(threshold <= mode for EVERY float min_cov = m x 2^-s <= 1 and every mode < 2^52) and consensus_cov_no_panic (the full no-panic theorem: no rounding '
+               'hypothesis left; only mode < 2^52), cov_threshold_above_mode_counterexample (the bound is sharp: mode = 2^52+1, min_cov = 1 gives mode+1 and the real code '
+               'panics); single_read_roundtrip_iff / _acgt (a single read of plain bases comes back unchanged IFF no (k-1)-mer is repeated; a repeated one closes the '
+               'cycle x_i -> ... -> x_(j-1) -> x_i, HasCycle is true and the result is the error, for every fuel); canon_full_width (2k = W, any even k) with the boundary '
+               'configurations of the three word types; push_weights_cut (a read a ++ [b] ++ c with b outside the IUPAC table counts exactly as a), '
+               'win_count_by_membership (a window counts once whatever the number of its readings equal to x); heaviest_tie_break_deterministic (equal-weight paths: the '
+               'one returned is a function of the map word -> weight, any two iteration orders of the Go map give the same path and consensus, on the binary-heap '
+               'transcription); index_limited_exact (limit M >= 0: a k-mer is indexed, with its complete list, iff it occurs fewer than M times in the references), '
+               'query_any_exact (query fresh OR itself a reference: j reported iff j is not the query and shares a k-mer occurrence, value shared+1, for every injective address '
+               'rank), query_limited_exact (the same with the limit), query_strand_invariant_any.',
  'level_note': 'Trusted: Lean kernel; the transcriptions Model/Kmer.lean and Model/DeBruijn.lean; obifp words are modelled as naturals below 2^W with '
                'LeftShift = (x * 2^n) mod 2^W, RightShift = x / 2^n, And/Or = Nat.land/lor, Not = 2^W-1-x, Sub panicking on underflow - the agreement of '
                'pkg/obifp with that arithmetic is property C20 (and is exercised here on Uint64/128/256 by the correspondence); the Go map of the graph is an '
                'association list (proved order-independent: consensus_of_multiset); weights as naturals (no uint/int overflow). min_cov: the three float64 '
                'operations are modelled exactly as round-to-53-bits-ties-to-even of the exact result with unbounded exponent (no overflow; the multiplication and '
                'the addition rounded separately = amd64 GOAMD64=v1; an FMA-fusing target agrees whenever cov_threshold_exact applies); obistats.Mode is a parameter '
-               'of the model ranging over modeCands - on a tie the driver accepts the outcome observed on the real code iff it is one of the candidates. Not '
-               'proved: monotonicity of the roundings (hence no-panic for every float min_cov <= 1 is only _partial); Query when the query sequence is itself a '
-               'reference (it is reported or not according to its address: tied by correspondence with the address ranks produced by the real run) and with an '
-               'occurrence limit (correspondence only); KmerMatch.Max, MaxPath/BestConsensus/LongestPath/WeightMode/WeightMean/Gml are not modelled (unused by the '
-               'commands or dependent on map iteration order / floats).',
+               'of the model ranging over modeCands - on a tie the driver accepts the outcome observed on the real code iff it is one of the candidates (the harness '
+               'shows the run-to-run difference on the real code: gc:run-to-run-difference-observed). Query is modelled as repaired by C19-query-self-last (the unrepaired '
+               'code reported the query sequence itself iff its address was the largest of the matched ones); the model still sorts by the address ranks of the real run, '
+               'query_any_exact / query_limited_exact prove the answer independent of them. Domain limit proved sharp: node weights >= 2^52 (cov_threshold_above_mode_counterexample). '
+               'Not modelled, no theorem: KmerMatch.Max, KmerMatch.Sequences (obikmersim match: the order of the matched sequences is the iteration order of a Go map), '
+               'MaxHead/MaxNext/MaxPath/BestConsensus/LongestPath/WeightMode/WeightMean/WeightSpectrum/HammingDistance (called by no command; MaxPath differs run to run '
+               'when two heads have the same weight: stat g:MaxPath-run-to-run-difference), Gml/WriteGml (obiconsensus --save-graph only; node ids follow map order, floats). '
+               'Which of several equally heavy paths is returned is proved deterministic but has no closed-form characterisation beyond the example. The float model has an '
+               'unbounded exponent (no overflow/subnormal result: mode x min_cov + 0.5 lies in [0.5, 2^63)).',
  'trusted_base': LEAN_TB + ['extract/ (go/ast literal extraction of iupac, revcompnuc, decode, __single_base_code__)',
  'naive string/big-integer k-mer references, Kahn and walk enumeration oracles, big.Float threshold reference in harness/c19.go',
  'C20 for the meaning of the obifp operations'],
@@ -66,10 +85,10 @@ CFG = {'lean_modules': ['ObiVerif.Props.C19'],
              'KmerAsString), debruijn.go (MakeDeBruijnGraph, Push, Weight, Nexts, Previouses, Heads, HasCycle, HaviestPath, DecodeNode, DecodePath, '
              'LongestConsensus with min_cov = 0 and > 0, Len, MaxWeight, FilterMinWeight, UInt64Heap + container/heap up/down/Push/Pop), kmermap.go (Push, the '
              'indexing loop and final filter of NewKmerMap, Len, Query, FilterMinCount), obistats.Mode (as the set of its possible answers) - as repaired by '
-             'notes/patches/C19-*.diff',
+             'notes/patches/C19-*.diff (six patches, incl. C19-query-self-last)',
  'assumptions': ['read counts >= 1 and total weights below 2^63',
                  'k >= 1; for the index 2k <= width of the word type; for the graph k <= 32 (property: 2..31)',
                  'bytes outside the IUPAC table are outside the contract of Push (modelled as the repaired code behaves: they end the enumeration of the read)',
-                 'min_cov finite, > 0, mode x min_cov below 2^63; float multiplication and addition not fused',
-                 'Query: distinct sequences have distinct addresses (rank injective)',
+                 'min_cov finite, > 0, mode x min_cov below 2^63; float multiplication and addition not fused; no-panic statement: node weights below 2^52',
+                 'Query: distinct sequences have distinct addresses (rank injective on the references)',
                  'HaviestPath on the empty graph panics in the code (log.Panicf "Cycle detected"); LongestConsensus guards it with "graph is empty"']}
